@@ -1067,6 +1067,13 @@ class LinearSpaceNotImplementedError(NotImplementedError):
     """
 
 
+# Optional call tracing for external conformance checking; off unless the
+# environment variable ODL_VERIF_TRACE is set (see odl/util/verif_trace.py).
+from odl.util import verif_trace as _verif_trace  # noqa: E402
+if _verif_trace.ENABLED:
+    LinearSpace.lincomb = _verif_trace.wrap_lincomb(LinearSpace.lincomb)
+
+
 if __name__ == '__main__':
     from odl.util.testutils import run_doctests
     run_doctests()
